@@ -117,6 +117,19 @@ def run_history(case: dict[str, Any], ctx: Ctx) -> None:
                     handle_of = {b.tid[t]: t for t in range(len(m.trials)) if m.trial_alive(t)}
                     compare_trial(b.s.get_trial(b.tid[h]), m, h, b, handle_of, f"after step {step} ({trace[-1] if trace else ''}) get_trial", case)
                     compared += 1
+                    if b.kind.startswith("grpc:") or b.kind == "cached_sqlite":
+                        # the caching layers answer list reads from their own state: read the
+                        # study's list through them after every write as well
+                        st_h = m.trials[h].study
+                        got_l = [(handle_of.get(x._trial_id), x.state.name, x.values) for x in b.s.get_all_trials(b.sid[st_h], deepcopy=False)]
+                        exp_l = [(t_, m.trials[t_].state, m.trials[t_].values) for t_ in m.studies[st_h].trials]
+                        compared += 1
+                        if not deep_eq(got_l, exp_l):
+                            raise Violation(
+                                "state-differs:get_all_trials",
+                                f"{b.kind} after step {step} ({trace[-1] if trace else ''}): get_all_trials(study {st_h}) -> (handle, state, values) {got_l}, contract {exp_l}; history {trace}",
+                                case,
+                            )
         for b in bks:
             compared += full_dump_check(m, b, case, "at the end")
         if len({tuple(st_.trials) for st_ in m.studies if st_.alive and st_.trials}) >= 2:
